@@ -227,3 +227,24 @@ Proof.
   pose proof (bnd_mono 0 1 _ ltac:(lia) bnd_one). pose proof (bnd_zero 1).
   split; split3; simpl; assumption.
 Qed.
+
+(** ** never_above_endpoints, interior branch: under H_EDGEDIST.
+    H_EDGEDIST (the part used): where the interior formula decides, its value does not exceed the
+    endpoint value min(xa2, xb2) by more than the documented bound minUpdateDistanceMaxError.
+    A numeric fact about the float expressions [intDist]/[endDist]; attacked by [S] (ii) on every run. *)
+Definition R_of (x : pfloat) : R := B2R (Prim2B x).
+
+Definition H_EDGEDIST : Prop := forall x a b,
+  bounded_point x -> bounded_point a -> bounded_point b -> interior_taken x a b = true ->
+  R_of (intDist x a b) <= R_of (endDist x a b) + R_of (s2_minUpdateDistanceMaxError (intDist x a b)).
+
+Lemma never_above_endpoints_H : H_EDGEDIST -> forall x a b,
+  bounded_point x -> bounded_point a -> bounded_point b ->
+  R_of (dist2 x a b) <= R_of (endDist x a b) + Rmax 0 (R_of (s2_minUpdateDistanceMaxError (dist2 x a b))).
+Proof.
+  intros H x a b Hx Ha Hb. unfold dist2.
+  destruct (interior_taken x a b) eqn:E.
+  - specialize (H x a b Hx Ha Hb E).
+    pose proof (Rmax_r 0 (R_of (s2_minUpdateDistanceMaxError (intDist x a b)))). lra.
+  - pose proof (Rmax_l 0 (R_of (s2_minUpdateDistanceMaxError (endDist x a b)))). lra.
+Qed.
